@@ -375,7 +375,7 @@ def compile_unit(workdir, tag, pieces):
         with open(src, "w") as f:
             f.write("\n".join(lines) + "\n")
         p = subprocess.run(["g++", "-O0", "-ffp-contract=off", "-frounding-math", "-shared", "-fPIC", "-w", src, "-o", so],
-                           capture_output=True, text=True, timeout=900)
+                           capture_output=True, text=True, timeout=300)
         if p.returncode == 0:
             return so, failed
         bad = {}
@@ -437,11 +437,18 @@ def run_compiled(lib, job, suffix):
 
 
 def finish(results, cfg):
+    """compile in units of at most 250 emitted functions (bounded compiler memory)"""
+    jobs = list(_cpp_jobs)
+    _cpp_jobs.clear()
+    for k in range(0, len(jobs), 250):
+        finish_unit(jobs[k:k + 250], cfg, f"{cfg.get('tag', 'unit')}_{k // 250}")
+
+
+def finish_unit(_cpp_jobs, cfg, tag):
     if not _cpp_jobs:
         return
     workdir = cfg["workdir"]
     os.makedirs(workdir, exist_ok=True)
-    tag = cfg.get("tag", "unit")
     pieces = []
     for job in _cpp_jobs:
         for sfx, text in job["variants"].items():
@@ -477,4 +484,3 @@ def finish(results, cfg):
             st2, val2 = res["__typed"]
             if st2 == "ran" and not val2:
                 out["attrib"] = "cpp-constant-printed-untyped"
-    _cpp_jobs.clear()
